@@ -122,7 +122,7 @@ class BroadcastChannelBySockets(BroadcastChannel):
             If `block=False` and there is no available message
         """
         t_start = timer()
-        while block:
+        while True:
             for remote_node_name, socket in self._sockets.items():
                 try:
                     msg = socket.recv(block=False)
@@ -130,7 +130,10 @@ class BroadcastChannelBySockets(BroadcastChannel):
                     continue
                 else:
                     return remote_node_name, msg
-            if block and timeout is not None:
+            if not block:
+                # Checked all sockets once: nothing is pending
+                break
+            if timeout is not None:
                 t_now = timer()
                 t_elapsed = t_now - t_start
                 if t_elapsed > timeout:
